@@ -576,6 +576,32 @@ static void build_cells(bool thorough)
 			}});
 		}
 	}
+	// 4c. enter and leave at every point (n = 4, t = 1; added after seeded change C14-5): everybody enters the inner channel (FIFO
+	//     on / off) and party 0 broadcasts there; one party L has the program "enter, leave" and its program steps are served last
+	//     by default, so with a budget of two deviations L enters at EVERY point of the default schedule and leaves at EVERY later
+	//     point - in particular while an r-request of L is outstanding (the links into L are demoted one at a time, which is what
+	//     makes L ask for the payload).  With t = 0 a party never has to ask (n - t echoes need every party's r-send first), so
+	//     this needs four parties.
+	for (int f = 1; f >= 0; f--)
+		for (int late = (thorough ? 1 : 3); late < 4; late++)
+		{
+			std::string id = "enterleave:n=4,t=1,innerfifo=" + str(f) + ",party=" + str(late) + ",d<=2";
+			cells.push_back(Cell{id, [=]() {
+				bool ok = true;
+				for (int from = -1; from < 4 && ok; from++)
+				{
+					if (from == late) continue;
+					Cfg c = base_cfg(4, 1, true, -1);
+					for (int p = 0; p < 4; p++) c.prog[p].push_back(Ev{'S', 1, f, 0});
+					c.prog[0].push_back(Ev{'B', (int)val_of(0, 0), 0, 0});
+					c.prog[late].push_back(Ev{'U', 0, 0, 0});
+					std::vector<std::pair<int, int> > dem;
+					if (from >= 0) dem.push_back(std::make_pair(from, late));
+					ok = dfs(c, id + ",demote=" + str(from), 2, dem, std::make_pair(-1, -1), {}, late);
+				}
+				return ok;
+			}});
+		}
 	// 4b. late join: the broadcast happens in an inner channel (FIFO on/off) while one party is still on the parent channel
 	//     and enters only when nothing else is left to do; every demoted link (so that payloads have to be fetched by
 	//     r-request / r-answer and deliveries are buffered under a foreign channel ID)
